@@ -328,7 +328,7 @@ func genCompose(r *rand.Rand) *scn.Scenario {
 		sc.Step, sc.End = 0, sc.Start
 	} else {
 		sc.Step = int64(1 + r.Intn(5))
-		n := int64([]int{2, 5, 9, 10, 11, 12, 20, 21, 25, 35}[r.Intn(10)])
+		n := int64([]int{1, 2, 5, 9, 10, 11, 12, 20, 21, 25, 35}[r.Intn(11)]) // 1: a range query of one step
 		sc.End = sc.Start + (n-1)*sc.Step
 	}
 	return sc
